@@ -371,6 +371,8 @@ struct ConnLedger {
     /// a period was opened in the current processing step (at this instant)
     rec_opened_now: Option<u64>,
     recovery_start_b: Option<u64>,
+    /// send times (earliest, latest) of the packets declared lost in the current processing step
+    step_lost_span: Option<(u64, u64)>,
     retry_seen: bool,
     /// largest ECN-CE count reported to this endpoint so far (per space) / a higher one arrived in this processing step
     ce_seen: HashMap<Space, u64>,
@@ -588,6 +590,9 @@ pub fn check_recovery(sc: &Scenario, out: &Outcome, opts: &RecoveryOpts, obs: &m
                 // (the loss of an MTU probe is not a congestion signal: RFC 8899 3, RFC 9000 14.4; neither is the "loss" of a
                 // packet that was never in flight - ACK-only packets, reported with 0 bytes)
                 let sent_t = c.spaces.get(space).and_then(|sp| sp.outstanding.get(pn)).map(|p| p.t);
+                if let (false, Some(t)) = (*mtu_probe, sent_t) {
+                    c.step_lost_span = Some(c.step_lost_span.map_or((t, t), |(a, b)| (a.min(t), b.max(t))));
+                }
                 if !*mtu_probe && *bytes > 0 {
                     let opens_a = c.rec_starts.is_empty() || c.rec_maybe_out;
                     let opens_b = match (c.recovery_start_b, sent_t) {
@@ -786,6 +791,17 @@ pub fn check_recovery(sc: &Scenario, out: &Outcome, opts: &RecoveryOpts, obs: &m
                 // persistent congestion collapses the window to the minimum and restarts slow start, which also ends the
                 // recovery period (RFC 9002 7.6.2); it is not reported as an event, so a window at or below four maximum
                 // datagrams of the current size (the larger of the two controllers' minimum) is taken as "period possibly over"
+                // persistent congestion (RFC 9002 7.6): when the packets lost in one step were sent further apart than the
+                // persistent congestion duration, the window collapses to the minimum and slow start begins again, which ends
+                // the recovery period; the acknowledgements of the same step may already have grown the window again, so the
+                // collapse is not visible in this event. Judged generously (80% of the duration computed from this event).
+                if let Some((first, last)) = c.step_lost_span.take() {
+                    let pc = 3 * (*srtt_us + (4 * *rttvar_us).max(GRANULARITY_US) + *max_ack_delay_us);
+                    if (last - first) * 10 >= pc * 8 && !c.rec_starts.is_empty() {
+                        c.rec_maybe_out = true;
+                        c.recovery_start_b = None;
+                    }
+                }
                 if (*cwnd as u64) <= 4 * c.cur_mtu.max(1200) && !c.rec_starts.is_empty() {
                     c.rec_maybe_out = true;
                     c.recovery_start_b = None;
